@@ -64,3 +64,27 @@ package protocoltypes
 //@   for C19, C12
 //@   safety
 //@   ensures [C19.newgroup] ret2 == nil ==> ret0 != nil && ret1 != nil && fresh(ret0) && ret0.GroupType == 3 && len(ret0.PublicKey) == 32 && len(ret0.Secret) == 32
+
+//@ # ----- C07: shareable contacts -----
+//@ func (*ShareableContact).GetPubKey
+//@   for C07
+//@   safety
+//@   requires m != nil
+//@   ensures ret1 == nil ==> ret0 != nil && pkv(ret0) == bytes(m.Pk) && len(m.Pk) == 32
+//@   ensures ret1 != nil ==> ret0 == nil
+//@   ensures (ret1 != nil) <==> (len(m.Pk) != 32)
+//@ func (*ShareableContact).IsSamePK
+//@   for C07
+//@   safety
+//@   requires m != nil && otherPK != nil
+//@   ensures [C07.samepk] result <==> (len(m.Pk) == 32 && pkv(otherPK) == bytes(m.Pk))
+//@ # format: the rendezvous seed has 32 bytes (or is absent when the option allows it); the key is present unless allowed missing
+//@ func (*ShareableContact).CheckFormat
+//@   for C07
+//@   safety
+//@   requires m != nil
+//@   ensures [C07.format.seed] result == nil && len(options) == 0 ==> len(m.PublicRendezvousSeed) == 32 && len(m.Pk) != 0
+//@   ensures [C07.format.seed-optional] result == nil && len(options) == 1 && options[0] == 1 ==> (len(m.PublicRendezvousSeed) == 32 || len(m.PublicRendezvousSeed) == 0) && len(m.Pk) != 0
+//@   loop 0 invariant -1 <= rangeindex && rangeindex < len(options)
+//@   loop 0 invariant optionMissingRDVSeedAllowed ==> (exists j :: 0 <= j && j <= rangeindex && options[j] == 1)
+//@   loop 0 invariant optionMissingPKAllowed ==> (exists j :: 0 <= j && j <= rangeindex && options[j] == 2)
